@@ -466,6 +466,26 @@ func (s *Sim) cbAction(t *txn, o *ObsInst, oi int, act int, h ecs.Entity, ent *E
 			}
 			break
 		}
+	case CbStats:
+		// statistics taken from inside a callback are consistent in themselves: every entity is in
+		// exactly one table at every moment a callback can observe
+		st := s.W.Stats()
+		s.C.Checks["stats.in_callback"]++
+		sum := 0
+		for i := range st.Archetypes {
+			a := &st.Archetypes[i]
+			sum += a.Size
+			sumT := 0
+			for j := range a.Tables {
+				sumT += a.Tables[j].Size
+			}
+			if sumT != a.Size {
+				s.violate("C19", "stats.invariants", "in_callback/arch_size", false, "inside a %s callback of %s: archetype %d Size %d, sum of its tables %d", EvName(o.Spec.Ev), t.kind, i, a.Size, sumT)
+			}
+		}
+		if sum != st.Entities.Used {
+			s.violate("C19", "stats.invariants", "in_callback/sum_arch", false, "inside a %s callback of %s: sum of archetype sizes %d != Entities.Used %d", EvName(o.Spec.Ev), t.kind, sum, st.Entities.Used)
+		}
 	case CbGC:
 		ForceGC(1)
 	case CbStructural:
